@@ -20,6 +20,7 @@ import (
 	"github.com/Vedant9500/WTF/internal/database"
 	"github.com/Vedant9500/WTF/zz_verif/node"
 	"github.com/Vedant9500/WTF/zz_verif/sim/simos"
+	"github.com/Vedant9500/WTF/zz_verif/sim/simrand"
 	"github.com/Vedant9500/WTF/zz_verif/sim/simrt"
 	"github.com/Vedant9500/WTF/zz_verif/sim/simtime"
 )
@@ -37,6 +38,7 @@ type NodeJob struct {
 	Faults  []simos.Fault `json:"faults,omitempty"`
 	Order   *OrderPlan    `json:"order,omitempty"` // nil = canonical map order
 	TickNS  int64         `json:"tick_ns,omitempty"`
+	Rand    int64         `json:"rand_seed,omitempty"` // seed of the process's math/rand stand-in (0: 1)
 }
 
 type NodeTap struct {
@@ -87,6 +89,10 @@ func nodeRun() bool {
 		job.Disk.Env = map[string]string{}
 	}
 	simtime.Install(time.Unix(0, job.ClockNS))
+	if job.Rand == 0 {
+		job.Rand = 1
+	}
+	simrand.Install(job.Rand)
 	simos.SetClock(simtime.Now)
 	simos.Mount(job.Disk, job.Faults)
 	if job.Order != nil {
